@@ -107,6 +107,15 @@ def solve_text(text, timeout=10.0, keep_dir=None, name="vc", order=None, quick_f
         res = Result(st, first, dt, out, attempts, path)
     else:
         rest = order[1:] + ([first] if quick_first and timeout > 5.0 else [])
+        if not rest:
+            res = Result("unknown", "", dt, out, attempts, path)
+            if keep_dir is None:
+                try:
+                    os.remove(path)
+                    os.rmdir(d)
+                except OSError:
+                    pass
+            return res
         with ThreadPoolExecutor(len(rest)) as ex:
             futs = {n: ex.submit(run_solver, n, path, timeout) for n in rest}
             answers = {}
